@@ -425,3 +425,49 @@ def must_signal(la, res, rule, table):
                         res.check(not off, rule, "%s:%s.%s->%s" % (f.name, rec, field, cond_field),
                                   "%s:%s" % (f.file, x.get("l")), note, "; ".join(off))
         res.count("signal_sites", n_sites)
+
+
+def broadcast_for_private_predicates(prog, res, rule, fns, worker_entries=()):
+    """T2d: a condition variable whose waiters test a predicate that involves a waiter-specific value (a
+    scalar parameter or a local of the waiting function, e.g. `nextJobID < jobID`) can have several
+    waiters with different predicates; waking one arbitrary waiter may wake the wrong one and the
+    signal is lost.  Every wake-up on such a condition variable must be a broadcast."""
+    private = {}      # cond class -> (function, line) of a wait with a waiter-specific predicate
+    # only functions that run on pool workers can have several simultaneous waiters (the owner thread is one thread)
+    multi = set()
+    todo = [w for w in worker_entries if prog.has_fn(w)]
+    while todo:
+        nme = todo.pop()
+        if nme in multi or not prog.has_fn(nme):
+            continue
+        multi.add(nme)
+        todo += list(prog.fn(nme).callees())
+    for f in fns:
+        if worker_entries and f.name not in multi:
+            continue
+        for b, i, c in f.calls(WAIT):
+            cls = lock_class(f, c["a"][0])
+            if cls is None:
+                continue
+            # branches that dominate the wait and can be re-reached from it (the predicate loop)
+            for bid, cond, t, fl in f.branches():
+                if not f.must_pass(via_edges={(bid, t)}, targets=[(b, i)]) and not f.must_pass(via_edges={(bid, fl)}, targets=[(b, i)]):
+                    continue
+                if bid not in f.reachable([b]):
+                    continue
+                cc = f.resolve_x(cond)
+                for y in f.walk_resolved(cc):
+                    if y.get("k") == "ref" and y.get("rk") == "p" and "*" not in (y.get("t") or ""):
+                        private.setdefault(cls, (f.name, c.get("l")))
+    n = 0
+    for f in fns:
+        for b, i, c in f.calls(SIGNAL):
+            cls = lock_class(f, c["a"][0])
+            if cls in private:
+                n += 1
+                res.check(c.get("c") == "pthread_cond_broadcast", rule, "%s:%s.%s@%s" % (f.name, cls[0], cls[1], c.get("l")), "%s:%s" % (f.file, c.get("l")),
+                          "broadcast (waiters of %s test a waiter-specific predicate in %s)" % (cls[1], private[cls][0]),
+                          "%s wakes a single waiter of %s.%s, but %s waits on it with a predicate involving its own parameter: with several waiters the one whose turn it is may never be woken (lost wake-up, the call blocks forever)"
+                          % (f.name, cls[0], cls[1], private[cls][0]))
+    res.count(rule + ".private-cond-classes", len(private))
+    return n
